@@ -142,14 +142,14 @@ theorem shrink_wf (k : Nat) (ts : List Ty) : (∀ t ∈ ts, t.wf = true) → (sh
 /-! ### soundness of Union and of the TypedDict → Dict rewrite -/
 
 section
-variable (sub : ClassId → ClassId → Bool)
+variable (sub : ClassId → ClassId → Bool) (ao : Bool)
 
-theorem mem_flat1 (ts : List Ty) (v : Val) (h : ∃ t ∈ ts, conforms sub t v = true) :
-    ∃ t ∈ flat1 ts, conforms sub t v = true := by
+theorem mem_flat1 (ts : List Ty) (v : Val) (h : ∃ t ∈ ts, conforms sub ao t v = true) :
+    ∃ t ∈ flat1 ts, conforms sub ao t v = true := by
   obtain ⟨t, ht, hc⟩ := h
   by_cases hu : ∃ us, t = .union us
   · obtain ⟨us, rfl⟩ := hu
-    obtain ⟨u, hu, hcu⟩ := (conforms_union sub us v).mp hc
+    obtain ⟨u, hu, hcu⟩ := (conforms_union sub ao us v).mp hc
     exact ⟨u, by simp only [flat1, List.mem_flatMap]; exact ⟨_, ht, by simpa using hu⟩, hcu⟩
   · refine ⟨t, ?_, hc⟩
     simp only [flat1, List.mem_flatMap]
@@ -157,23 +157,23 @@ theorem mem_flat1 (ts : List Ty) (v : Val) (h : ∃ t ∈ ts, conforms sub t v =
     cases t <;> simp_all
 
 theorem mkUnion_sound (ts : List Ty) (hw : ∀ t ∈ ts, t.wf = true) (v : Val)
-    (h : ∃ t ∈ ts, conforms sub t v = true) : conforms sub (mkUnion ts) v = true := by
-  have h1 := mem_flat1 sub ts v h
+    (h : ∃ t ∈ ts, conforms sub ao t v = true) : conforms sub ao (mkUnion ts) v = true := by
+  have h1 := mem_flat1 sub ao ts v h
   have hwf := flat1_wf ts hw
-  obtain ⟨t, hm, hc⟩ := dedupBy_sem Ty.eqv (fun t => conforms sub t v = true) (flat1 ts)
-    (fun a _ b hb hab hpb => (Ty.eqv_sound sub a b hab (hwf b hb) v).mpr hpb) h1
+  obtain ⟨t, hm, hc⟩ := dedupBy_sem Ty.eqv (fun t => conforms sub ao t v = true) (flat1 ts)
+    (fun a _ b hb hab hpb => (Ty.eqv_sound sub ao a b hab (hwf b hb) v).mpr hpb) h1
   unfold mkUnion
   split
   · next u heq => rw [heq] at hm; simp at hm; subst hm; exact hc
-  · exact (conforms_union sub _ v).mpr ⟨t, hm, hc⟩
+  · exact (conforms_union sub ao _ v).mpr ⟨t, hm, hc⟩
 end
 
 section
-variable (sub : ClassId → ClassId → Bool) (hrefl : ∀ c, sub c c = true)
+variable (sub : ClassId → ClassId → Bool) (ao : Bool) (hrefl : ∀ c, sub c c = true)
 include hrefl
 
 mutual
-theorem tdToDict_widens : ∀ (t : Ty) (v : Val), conforms sub t v = true → conforms sub (tdToDict t) v = true
+theorem tdToDict_widens : ∀ (t : Ty) (v : Val), conforms sub ao t v = true → conforms sub ao (tdToDict t) v = true
   | .any, v, h => by simpa [tdToDict] using h
   | .cls c, v, h => by simpa [tdToDict] using h
   | .typeOf c, v, h => by simpa [tdToDict] using h
@@ -211,9 +211,9 @@ theorem tdToDict_widens : ∀ (t : Ty) (v : Val), conforms sub t v = true → co
       exact tdToDictL_widens ts _ h
   | .union ts, v, h => by
       simp only [tdToDict]
-      apply mkUnion_sound sub _ (tdToDictL_wf ts)
+      apply mkUnion_sound sub ao _ (tdToDictL_wf ts)
       rw [conforms] at h
-      exact (conformsAny_iff sub _ v).mp (tdToDictL_any ts v h)
+      exact (conformsAny_iff sub ao _ v).mp (tdToDictL_any ts v h)
   | .td r o, v, h => by
       cases v <;> simp [conforms] at h
       rename_i kvs
@@ -223,14 +223,14 @@ theorem tdToDict_widens : ∀ (t : Ty) (v : Val), conforms sub t v = true → co
         rcases List.mem_append.mp ht with ht | ht
         · exact tdToDictF_wf r t ht
         · exact tdToDictF_wf o t ht
-      have key : ∀ kv ∈ kvs, conforms sub (.cls strC) kv.1 = true ∧
-          conforms sub (mkUnion (tdToDictF r ++ tdToDictF o)) kv.2 = true := by
+      have key : ∀ kv ∈ kvs, conforms sub ao (.cls strC) kv.1 = true ∧
+          conforms sub ao (mkUnion (tdToDictF r ++ tdToDictF o)) kv.2 = true := by
         intro kv hkv
         have := hall kv.1 kv.2 hkv
         split at this
         · next s hs =>
           refine ⟨by rw [hs]; simp [conforms, Val.classOf, hrefl], ?_⟩
-          apply mkUnion_sound sub _ hwf
+          apply mkUnion_sound sub ao _ hwf
           simp only [Bool.or_eq_true] at this
           rcases this with h1 | h1
           · obtain ⟨u, hu, hc⟩ := tdToDictF_field r s kv.2 h1
@@ -240,11 +240,15 @@ theorem tdToDict_widens : ∀ (t : Ty) (v : Val), conforms sub t v = true → co
         · simp at this
       simp only [tdToDict]
       split
-      · simp [conforms]
+      · -- the empty TypedDict admits only the empty dict
+        simp only [conforms, List.all_eq_true, Bool.and_eq_true]
+        intro kv hkv
+        have := hall kv.1 kv.2 hkv
+        split at this <;> simp [conformsField] at this
       · simp only [conforms, List.all_eq_true, Bool.and_eq_true]
         exact key
-theorem tdToDictF_field : ∀ (fs : List (String × Ty)) (s : String) (v : Val), conformsField sub fs s v = true →
-    ∃ u ∈ tdToDictF fs, conforms sub u v = true
+theorem tdToDictF_field : ∀ (fs : List (String × Ty)) (s : String) (v : Val), conformsField sub ao fs s v = true →
+    ∃ u ∈ tdToDictF fs, conforms sub ao u v = true
   | [], _, _, h => by simp [conformsField] at h
   | (k, t) :: fs, s, v, h => by
       simp only [conformsField] at h
@@ -252,7 +256,7 @@ theorem tdToDictF_field : ∀ (fs : List (String × Ty)) (s : String) (v : Val),
       split at h
       · left; exact tdToDict_widens t v h
       · right; exact tdToDictF_field fs s v h
-theorem tdToDictL_widens : ∀ (ts : List Ty) (vs : List Val), conformsL sub ts vs = true → conformsL sub (tdToDictL ts) vs = true
+theorem tdToDictL_widens : ∀ (ts : List Ty) (vs : List Val), conformsL sub ao ts vs = true → conformsL sub ao (tdToDictL ts) vs = true
   | [], vs, h => by simpa [tdToDictL] using h
   | t :: ts, vs, h => by
       cases vs with
@@ -261,8 +265,8 @@ theorem tdToDictL_widens : ∀ (ts : List Ty) (vs : List Val), conformsL sub ts 
         simp only [conformsL, Bool.and_eq_true] at h
         simp only [tdToDictL, conformsL, Bool.and_eq_true]
         exact ⟨tdToDict_widens t v h.1, tdToDictL_widens ts vs h.2⟩
-theorem tdToDictL_any : ∀ (ts : List Ty) (v : Val), conformsAny sub ts v = true →
-    conformsAny sub (tdToDictL ts) v = true
+theorem tdToDictL_any : ∀ (ts : List Ty) (v : Val), conformsAny sub ao ts v = true →
+    conformsAny sub ao (tdToDictL ts) v = true
   | [], _, h => by simp [conformsAny] at h
   | t' :: ts, v, h => by
       simp only [conformsAny, Bool.or_eq_true] at h
